@@ -593,6 +593,110 @@ def gen_hist(rng):
     return {'type': 'hist', 'chems': chems, 'ops': ops, 'queries': qs, 'ln': [0., 1.]}
 
 
+# ---------------------------------------------------------------------------------------------- the constructor
+CTOR_IDS = ['Ethanol', 'Water', 'Hexane', 'Benzene', 'Methanol', 'Acetone']
+# names of Hvap models (switch the Hvap handle), of heat-capacity models only / unknown names (switch nothing the wiring reads).
+# Not used: names of sublimation-pressure models (set_method's second loop tests the LAST model handle, _Psub).
+CTOR_METHODS = ['RIEDEL', 'PITZER', 'MORGAN_KOBAYASHI', 'LIU', 'CHEN', 'VETERE', 'DIPPR_PERRY_8E', 'VDI_PPDS', 'SIVARAMAN_MAGEE_KOBAYASHI',
+                'VELASCO', 'HEOS_FIT', 'POLING_CONST', 'TRCIG', 'NO_SUCH_METHOD']
+
+
+def ctor_kwargs(case):
+    kw = {'phase_ref': case['pr'], 'cache': False}
+    if case['method']: kw['method'] = case['method']
+    if case['hvap'] is not None: kw['Hvap'] = case['hvap']
+    if case['default']: kw['default'] = True
+    return kw
+
+
+def ctor_reference(case):
+    """what the database and thermo's handles (oracles) answer for this chemical, taken from an object built WITHOUT
+    Hvap= / default= / method=: data, the identity Cn.<ph>(300) of each heat-capacity model, Hvap(Tb) of the default model
+    and of the requested one (selected by hand on the handle)"""
+    tmo = env()['tmo']
+    ref = tmo.Chemical(case['ID'], phase_ref=case['pr'], cache=False)
+    d = {f: getattr(ref, f) for f in ('Tm', 'Tb', 'Hfus', 'Sfus', 'S0')}
+    d['cn'] = [float(getattr(ref.Cn, ph).T_dependent_property(300.)) for ph in 'slg']
+    d['hv0'] = float(ref.Hvap(ref.Tb))
+    d['has'] = bool(case['method']) and case['method'] in ref.Hvap.all_methods
+    if d['has']:
+        ref.Hvap.method = case['method']
+        d['hvm'] = float(ref.Hvap(ref.Tb))
+    else:
+        d['hvm'] = None
+    return d
+
+
+def ctor_queries(case, d):
+    return [[fn, ph, d[T] if isinstance(T, str) else T, P] for fn, ph, T, P in case['queries']]
+
+
+def run_ctor(case):
+    tmo = env()['tmo']
+    d = ctor_reference(case)
+    rec = {'I': {}, 'J': {}}
+    with harvest_integrals(rec):
+        c = tmo.Chemical(case['ID'], **ctor_kwargs(case))       # the constructor under test; nothing is done to c afterwards
+        hH, hS = handle_of(c, 'H'), handle_of(c, 'S')
+        vals = [observe(hH if fn == 'H' else hS, ph, T, P) for fn, ph, T, P in ctor_queries(case, d)]
+        cnvals = [observe(c.Cn, ph, 300.) for ph in 'slg']
+        hvval = observe(c.Hvap, c.Tb)
+    tdp = getattr(sys.modules['thermosteam._chemical'], 'TDependentProperty', None)
+    if tdp is not None: tdp.RAISE_PROPERTY_CALCULATION_ERROR = True
+    return {'ref': d, 'vals': vals, 'cnvals': cnvals, 'hvval': hvval, 'data_now': [getattr(c, f) for f in ('Tm', 'Tb', 'Hfus', 'Sfus', 'S0')],
+            'tabI': [[list(k), v] for k, v in sorted(rec['I'].items())], 'tabJ': [[list(k), v] for k, v in sorted(rec['J'].items())]}
+
+
+def gen_ctor(rng):
+    qs = [[rng.choice('HS'), rng.choice('lg'), 'Tb', P_REF]]
+    for _ in range(rng.randint(3, 5)):
+        qs.append([rng.choice('HS'), rng.choice('slg'), rng.choice([T_REF, 300., 350., 'Tb', 'Tb', 'Tm', 400.]), rng.choice(PS[:4])])
+    return {'type': 'ctor', 'ID': rng.choice(CTOR_IDS), 'pr': rng.choice('slg'),
+            'method': rng.choice(CTOR_METHODS) if rng.random() < 0.8 else None,
+            'hvap': rng.choice(HHV) if rng.random() < 0.25 else None, 'default': rng.random() < 0.2,
+            'queries': qs, 'ln': [0., 1.]}
+
+
+def coq_ctor(case, out, lnc, lnd):
+    d = out['ref']
+    if [frac(x) for x in out['data_now']] != [frac(d[f]) for f in ('Tm', 'Tb', 'Hfus', 'Sfus', 'S0')]:
+        raise ValueError('the constructor arguments changed Tm/Tb/Hfus/Sfus/S0 of a database chemical: outside the constructor model')
+    spec = (f'({PHC[case["pr"]]}, mkSc {qo(d["Tm"])} {qo(d["Tb"])} {qo(d["Hfus"])} {qo(d["Sfus"])} {qo(d["S0"])}, {qo(d["hv0"])}, {coq_cc(d["cn"])})')
+    a_hv = 'None' if case['hvap'] is None else f'(Some {qo(case["hvap"])})'
+    a_def = '(Some (fun s : qsc => s))' if case['default'] else 'None'     # complete database chemicals: default() finds nothing missing
+    if case['method']:
+        fh = f'(fun _ : option Q => {qo(d["hvm"])})' if d['has'] else '(fun x : option Q => x)'
+        a_m = f'(Some ({fh}, (fun x : qcc => x)))'
+    else:
+        a_m = 'None'
+    qs = clist([f'(Q{fn} {PHTP[ph]} {qo(T)} {qo(P)})' for fn, ph, T, P in ctor_queries(case, d)])
+    return (f'(ctor_case {lnc} {lnd} {coq_ctab(out["tabI"])} {coq_ctab(out["tabJ"])} {spec} (mkCtor qcc (option Q) qsc {a_hv} {a_def} {a_m}) '
+            f'{qs} {clist([cpyv(v) for v in out["vals"]])} {clist([PHT[ph] for ph in "slg"])} {clist([cpyv(v) for v in out["cnvals"]])} {cpyv(out["hvval"])})')
+
+
+def oracle_ctor(case):
+    """a chemical as the constructor returns it (real log, real handles): reference state, and the jumps at Tb / Tm equal
+    ITS OWN Hvap(Tb) / Hfus / Sfus"""
+    tmo = env()['tmo']
+    kw = ctor_kwargs(case)
+    c = tmo.Chemical(case['ID'], **kw)
+    tag = f'[Chemical({case["ID"]!r}, ' + ', '.join(f'{k}={v!r}' for k, v in kw.items() if k != 'cache') + ')]'
+    if c._H is None or c._S is None: return f'ctor_no_functors{tag}: H / S are None'
+    H, S, P, pr, Tb, Tm = c.H, c.S, P_REF, c.phase_ref, c.Tb, c.Tm
+    if not close(H(pr, T_REF, P), 0.): return f'ctor_wiring_not_final{tag}: H at the reference state = {H(pr, T_REF, P)}'
+    if not close(S(pr, T_REF, P), c.S0): return f'ctor_wiring_not_final{tag}: S at the reference state = {S(pr, T_REF, P)} != S0 = {c.S0}'
+    hv = c.Hvap(Tb)
+    if not close(H('g', Tb, P) - H('l', Tb, P), hv, 1e-6):
+        return f'ctor_wiring_not_final{tag}: H(g,Tb) - H(l,Tb) = {H("g", Tb, P) - H("l", Tb, P)} but its own Hvap(Tb) = {hv} (Hvap method {c.Hvap.method})'
+    if not close(S('g', Tb, P) - S('l', Tb, P), hv / Tb, 1e-6):
+        return f'ctor_wiring_not_final{tag}: S(g,Tb) - S(l,Tb) = {S("g", Tb, P) - S("l", Tb, P)} but its own Hvap(Tb)/Tb = {hv / Tb} (Hvap method {c.Hvap.method})'
+    if not close(H('l', Tm, P) - H('s', Tm, P), c.Hfus, 1e-6):
+        return f'ctor_wiring_not_final{tag}: H(l,Tm) - H(s,Tm) = {H("l", Tm, P) - H("s", Tm, P)} but its own Hfus = {c.Hfus}'
+    if not close(S('l', Tm, P) - S('s', Tm, P), c.Sfus, 1e-6):
+        return f'ctor_wiring_not_final{tag}: S(l,Tm) - S(s,Tm) = {S("l", Tm, P) - S("s", Tm, P)} but its own Sfus = {c.Sfus}'
+    return None
+
+
 # ---------------------------------------------------------------------------------------------- generators
 TMS = [200., 273.25, 150.5, 250.]
 TBS = [350., 373.125, 400.5, 512.]
@@ -684,6 +788,9 @@ def gen_cases(rng, tier):
             c = gen_pkghist(rng); c['ln'] = ln
             cases.append(c)
             continue
+        if k < 46 or r > 0.975:
+            cases.append(gen_ctor(rng))       # real log is never reached with P = multiples of P_ref only through the stand-in [0, 1]
+            continue
         if r < 0.16:
             cases.append({'type': 'sfus', 'Hfus': rng.choice([None, None, 0., 6010., 1000.5, -8.]), 'Tm': rng.choice([None, None, 0., 273.25, 150.]),
                           'db_Hfus': rng.choice([None, 0., 6010., 2.5]), 'db_Tm': rng.choice([None, 0., 273.25, 200.]), 'ln': ln})
@@ -744,6 +851,9 @@ def run_impl(case):
     if case['type'] == 'hist':
         with patched_log(case['ln']):
             return run_hist(case)
+    if case['type'] == 'ctor':
+        with patched_log(case['ln']):
+            return run_ctor(case)
     if case['type'] == 'pkg':
         with patched_log(case['ln']):
             return run_pkg(case)
@@ -834,6 +944,8 @@ def coq_case(case, out):
         return coq_hist(case, out, lnc, lnd)
     if case['type'] == 'pkghist':
         return coq_pkghist(case, out, lnc, lnd)
+    if case['type'] == 'ctor':
+        return coq_ctor(case, out, lnc, lnd)
     if case['type'] == 'pkg':
         if any(out['wiring_err']):
             raise ValueError('wiring raised while building a package case')
@@ -989,6 +1101,11 @@ def classify(case, out):
         return ks + [f'pkghist-op:{k}:{o[0]}' for k, o in case['ops']] + [f'pkghist-obs:{o[0]}:' + (v[0] if v[0] != 'err' else v[1]) for o, v in zip(case['obs'], out.get('vals', []))]
     if case['type'] == 'pkg':
         return ks + ['pkg-op:' + o[0] for o in case['ops']] + [f'pkg-obs:{o[0]}:' + (v[0] if v[0] != 'err' else v[1]) for o, v in zip(case['obs'], out.get('vals', []))]
+    if case['type'] == 'ctor':
+        d = out.get('ref', {})
+        ks.append('ctor:method-' + ('none' if not case['method'] else 'switches-Hvap' if d.get('has') else 'not-an-Hvap-model'))
+        ks.append(f'ctor:ref-{case["pr"]}' + ('/Hvap=' if case['hvap'] is not None else '') + ('/default' if case['default'] else ''))
+        return ks + [f'query:{fn}.{ph}:' + (o[0] if o[0] != 'err' else o[1]) for (fn, ph, T, P), o in zip(case['queries'], out.get('vals', []))]
     if case['type'] == 'hist':
         for o, ok in zip(case['ops'], out.get('oks', [])):
             ks.append(f'hist-op:{o[0]}:' + ('ok' if ok is True else str(ok)))
@@ -1315,6 +1432,8 @@ def oracle(case):
         return oracle_mix(specs, mols[:4], 'l', 350., P_REF)
     if case['type'] == 'db':
         return oracle_db(case)
+    if case['type'] == 'ctor':
+        return oracle_ctor(case)
     if case['type'] == 'hist':
         return oracle_hist(case)
     if case['type'] == 'pkg':
